@@ -5,19 +5,41 @@ V = os.path.dirname(os.path.dirname(os.path.abspath(__file__)))
 ALL = ['C%02d' % i for i in range(1, 21)]
 
 CLAIMED = {
- 'C01': ('TLC-enumerated (document, path) cases replayed into the real library; responses compared with the TLA+ reference semantics',
-         'Exhaustive within the small scope (all ordered pairs of step kinds, each also after `..`, quick; triples and trailing functions, thorough), both decode modes; beyond the scope nothing is claimed.', '6 C01'),
- 'C03': ('TLC-enumerated cases replayed; response shape and error class checked under recover in crash-isolated workers',
-         'Every enumerated (path, document) must return (non-empty, nil) xor (nil, documented runtime error); FunctionFailed only when a model function failed.', '6 C03'),
- 'C04': ('TLC-enumerated cases replayed with a structural snapshot of the document before/after every call',
-         'Snapshot comparison on every enumerated case, success or failure, both decode modes.', '6 C04'),
+ 'C01': ('TLC-enumerated (document, path) cases (Gen_Select, Gen_Slice) replayed into the real library and compared with the TLA+ reference semantics Select/Response; traces of random and repository-corpus retrievals validated by Trace_Eval (text -> Peg -> Actions -> Select)',
+         'Exhaustive within the small scope (all ordered pairs of step kinds, each also after `..`, quick; triples and trailing functions, thorough), both decode modes; sampled beyond it (direction B).', '6 C01'),
+ 'C02': ('TLA+ parser model (Peg over the grammar generated from jsonpath.peg + the 46 actions) with invariants Documented/StackOK and CmpNormalize liveness; token soup and rendered sentences enumerated by TLC and parsed by the real library in crash-isolated workers; random/mutated/stress strings recorded and validated by Trace_Parse',
+         'Shape of every Parse outcome, no panic, no process death, no call longer than 3 s, for all enumerated and sampled strings up to 256 characters, three configurations.', '6 C02'),
+ 'C03': ('TLC-enumerated cases (Gen_Select, Gen_Slice magnitudes) replayed; response shape and error class checked under recover in crash-isolated workers; recorded random evaluations incl. numbers beyond float64/int64',
+         'Every enumerated/sampled (path, document) returns (non-empty, nil) xor (nil, documented runtime error); FunctionFailed only when a model function failed.', '6 C03'),
+ 'C04': ('TLC-enumerated cases replayed with a structural snapshot of the document before/after every call; same assertion on every recorded random evaluation',
+         'Snapshot comparison on every case, success or failure, both decode modes, also in accessor mode without Set.', '6 C04'),
+ 'C07': ('TLA+ KeyLess order (lemma: UTF-8 byte order = code point order) over all 2..5-key subsets of a pool separating byte/UTF-16/length orders (6..12 keys simulated); each case evaluated 32 times on 4 independently built maps interleaved with pool-recycling decoys',
+         'Every evaluation must return the specification sequence; >= 64 evaluations per key-set size are counted in the evidence.', '6 C07'),
  'C08': ('TLA+ law Compose model-checked on Select; the same law checked oracle-free on the real library (three retrievals per split, union and recursive-descent corollaries)',
          'Every split point of every enumerated path; Q restricted as the property states.', '6 C08'),
- 'C12': ('TLC-enumerated cases evaluated once per accessor mode with identical recording function sets', 'Parity of length, Get() values, errors and function call logs on every enumerated case.', '6 C12'),
- 'C13': ('TLA+ locations (Select.loc, invariant LocsExact) replayed: Set a sentinel through every accessor on a fresh copy and diff the document against Put(doc, loc, v)',
+ 'C11': ('TLA+ Slice: mechanism (two implementations, normalise, guarded loop) = Python definition, in range, monotone, for all start/end/step in {omitted} U [-7..7] U five boundary magnitudes x lengths 0..6; every slice and index replayed on the real library',
+         'Exhaustive over the stated space (64 974 states) in the quick tier.', '6 C11'),
+ 'C12': ('TLC-enumerated cases (paths with trailing and in-filter functions) evaluated once per accessor mode with identical recording function sets', 'Parity of length, Get() values, errors and function call logs on every enumerated case.', '6 C12'),
+ 'C13': ('TLA+ locations (Select.loc, invariant LocsExact) replayed: Set a sentinel through every accessor on a fresh copy and diff the document against Put(doc, loc, v); Get liveness; Set == nil exactly for non-locations',
          'Every result index of every enumerated successful case.', '6 C13'),
- 'C15': ('TLA+ Failure set (deepest step, missing member preferred) compared with the real error type, path text, expected kind and found type',
+ 'C14': ('TLA+ CallLog (Stages) compared with the recorded argument logs of the harness functions for every enumerated path x function sequence', 'Per function: every selected value once, in order; aggregates once with all values.', '6 C14'),
+ 'C15': ('TLA+ Failure set (deepest step, missing member preferred) compared with the real error type, path text, expected kind and found type; also on recorded random evaluations via Trace_Eval',
          'Exact for single-valued paths, set membership for multi-branch paths.', '6 C15'),
+ 'C16': ('TLA+ Unescape/Render/Grammar: Parse(Spell(k)) = name(k) for four spellings of every key over a class-representative alphabet (model-checked with Peg+Actions); each key retrieved by the real library in six positions among near-miss siblings',
+         'All keys of <= 2 atoms (full alphabet) and <= 3 atoms (reduced), longer keys simulated.', '6 C16'),
+ 'C17': ('translation validation of jsonpath.peg.go against jsonpath.peg: TLC interprets the generated Grammar.tla (Peg + Actions); acceptance, error class, position, reason, argument texts compared with the real Parse on token soup (direction A) and on recorded grammar-walk / mutated / invalid-UTF-8 strings (Trace_Parse); near checked against the rest of the path',
+         'Every enumerated and sampled string.', '6 C17'),
+ 'C18': ('TLA+ Render under 9 spelling vectors; model-level RoundTrip (Gen_RoundTrip: ParseModel(Render(a, sp)) = a for all 64 vectors); each enumerated case evaluated under every spelling and compared with the canonical one',
+         'Values equal, or errors of the same type at the same step.', '6 C18'),
+ 'C20': ('TLA+ opaque values in Select/Holds (Gen_Opaque: leaves replaced by values of 20 Go types chosen by TLC) replayed with the exact-response, shape, snapshot, accessor-parity, call-log and error oracles',
+         'All one-step paths x all types, two-step paths x six representative types (quick).', '6 C20'),
+}
+PENDING = {
+ 'C05': 'history family (Machine.tla) under construction in this session',
+ 'C06': 'schedule family (Conc.tla, hooks) under construction in this session',
+ 'C09': 'filter family (Gen_Filter / FilterProto.tla) under construction in this session',
+ 'C10': 'filter family (Gen_Filter) under construction in this session',
+ 'C19': 'parse-history family (Machine.tla) under construction in this session',
 }
 NOTE = 'TLC and the TLA+ modules in /verif/spec are trusted; the Go harness converts model values; bounded scope.'
 
@@ -57,7 +79,7 @@ def main():
         'engines': [{'name': 'tlc+replay', 'path': 'tools/check', 'serves_properties': sorted(CLAIMED),
                      'kind_free_text': 'TLA+ specification (spec/*.tla) checked by TLC; TLC-printed cases/behaviours replayed into the real library by harness/ (Go), traces of the real library validated by TLC'}],
         'checks': checks,
-        'not_applicable': [{'property_id': p, 'reason': 'check under construction in this session; not yet claimed'} for p in ALL if p not in CLAIMED],
+        'not_applicable': [{'property_id': p, 'reason': PENDING.get(p, 'not yet claimed')} for p in ALL if p not in CLAIMED],
         'notes': 'See DESIGN.md. Exit 2 = infrastructure problem (no verdict).',
     }
     json.dump(m, open(os.path.join(V, 'MANIFEST.json'), 'w'), indent=1)
